@@ -108,9 +108,18 @@ func Generate(rng *rand.Rand, i int, thorough bool) *p2prig.Scenario {
 		if s.Engine == "legacy" && !ns.OrphanForbidden && s.BanDurationMs >= 60000 && rng.Intn(2) == 0 {
 			// the offender behaves from then on: a later connection of the (banned) host that were admitted would stay
 			ns.OffendOnce = true
+			if i%2 == 0 {
+				// the host's other connections end with the offender's: nothing of that host is connected any more, so the
+				// connection manager dials the host again at once (awaited at the end of the scenario). Several connections
+				// at a time: a node that takes one refuses the service's first burst of dials, and an address refused 25
+				// times is not dialled again.
+				ns.MaxLive, ns.OthersGoWithOffender = 0, true
+			}
 		}
-		if s.Engine == "legacy" && !ns.OrphanForbidden && rng.Intn(2) == 0 {
+		if s.Engine == "legacy" && !ns.OrphanForbidden && rng.Intn(2) == 0 && !(ns.OffendOnce && i%2 == 0) {
 			// at the end: a second host offends, its ban elapses unnoticed, it offends again over a connection it kept
+			// (every other scenario with a repentant offender keeps its one-hour ban: the service's re-dial of that host is
+			// judged there)
 			s.ReOffend = true
 			s.BanDurationMs = 3000
 		}
